@@ -155,3 +155,14 @@ Definition decode_kmer (n k : Z) (h : Z) : list Z :=
   else map (fun p => (h / p) mod n) (powers n k).
 Definition to_string (alpha : list Z) (n k h : Z) : list Z := text_of alpha (decode_kmer n k h).
 Definition labels (alpha : list Z) (n k : Z) : list (list Z) := map (to_string alpha n k) (arange (n ^ k)).
+
+(* ---- the arithmetic formulas above as named helpers; Bridge/C13.v proves (a) each equals the formula regenerated
+        from the source (Gen/C13.v) and (b) the model definitions above are built from them (delta-equal). *)
+Definition m_kmer_weight (n j : Z) : Z := n ^ j.                       (* n ** arange(k) at position j *)
+Definition m_packed_test (n : Z) : bool := n =? 4.                     (* which alphabets take the shift/mask routes *)
+Definition m_digit4 (h j : Z) : Z := Z.land (Z.shiftr h (2 * j)) 3.    (* to_string, |A| = 4 *)
+Definition m_digit (n h j : Z) : Z := (h / n ^ j) mod n.               (* to_string, other sizes *)
+Definition m_n_labels (n k : Z) : Z := n ^ k.                          (* number of k-mer labels = bincount minlength *)
+Definition m_min_n_kmers (W k : Z) : Z := W - k + 1.                   (* k-mers inside a minimizer window *)
+Definition m_min_window (n_kmers k : Z) : Z := n_kmers + k - 1.        (* window of the outer roller *)
+Definition m_pwm_acc_len (size offset : Z) : Z := size - offset.       (* scores[:size-offset] += column[seq[offset:]] *)
